@@ -24,3 +24,52 @@ package time
 //@   ensures [asymmetric] before(a, b) ==> !before(b, a)
 //@   ensures [transitive] before(a, b) && before(b, c) ==> before(a, c)
 //@   ensures [total] before(a, b) || before(b, a) || sameInstant(a, b)
+//@
+//@ // ---- cuts: belowAll < below(t) < above(t) < aboveAll, ties by timestamp ----
+//@ pure func isBelowAll(c) = istype(c, *belowAll)
+//@ pure func isAboveAll(c) = istype(c, *aboveAll)
+//@ pure func isBelow(c) = istype(c, *below)
+//@ pure func isAbove(c) = istype(c, *above)
+//@ pure func tsOf(c) = isBelow(c) ? cast(cast(c, *below), *timestamppb.Timestamp) : cast(cast(c, *above), *timestamppb.Timestamp)
+//@ pure func wfCut(c) = (isBelowAll(c) && c == iface(belowAllInstance)) || (isAboveAll(c) && c == iface(aboveAllInstance)) || ((isBelow(c) || isAbove(c)) && validTS(tsOf(c)))
+//@ // position of a cut on the extended timeline
+//@ pure func cutLess(x, y) = (isBelowAll(x) && !isBelowAll(y)) || (isAboveAll(y) && !isAboveAll(x)) ||
+//@ |   ((isBelow(x) || isAbove(x)) && (isBelow(y) || isAbove(y)) && (before(tsOf(x), tsOf(y)) || (sameInstant(tsOf(x), tsOf(y)) && isBelow(x) && isAbove(y))))
+//@ pure func cutSame(x, y) = (isBelowAll(x) && isBelowAll(y)) || (isAboveAll(x) && isAboveAll(y)) ||
+//@ |   ((isBelow(x) || isAbove(x)) && (isBelow(y) || isAbove(y)) && sameInstant(tsOf(x), tsOf(y)) && (isBelow(x) == isBelow(y)))
+//@
+//@ func compareValueCuts(this, that) (r)
+//@   requires wfCut(this) && wfCut(that) && (isBelow(this) || isAbove(this))
+//@   ensures [less] (r < 0) == cutLess(this, that)
+//@   ensures [greater] (r > 0) == cutLess(that, this)
+//@   ensures [range] r == 0 - 1 || r == 0 || r == 1
+//@   modifies nothing
+//@
+//@ func (*below).CompareTo(that) (r)
+//@   requires validTS(cast(recv, *timestamppb.Timestamp)) && wfCut(that)
+//@   ensures [less] (r < 0) == cutLess(iface(recv), that)
+//@   ensures [greater] (r > 0) == cutLess(that, iface(recv))
+//@   modifies nothing
+//@
+//@ func (*above).CompareTo(that) (r)
+//@   requires validTS(cast(recv, *timestamppb.Timestamp)) && wfCut(that)
+//@   ensures [less] (r < 0) == cutLess(iface(recv), that)
+//@   ensures [greater] (r > 0) == cutLess(that, iface(recv))
+//@   modifies nothing
+//@
+//@ func (*belowAll).CompareTo(that) (r)
+//@   requires recv == belowAllInstance && wfCut(that)
+//@   ensures [less] (r < 0) == cutLess(iface(recv), that)
+//@   ensures [greater] (r > 0) == cutLess(that, iface(recv))
+//@   modifies nothing
+//@
+//@ func (*aboveAll).CompareTo(that) (r)
+//@   requires recv == aboveAllInstance && wfCut(that)
+//@   ensures [less] (r < 0) == cutLess(iface(recv), that)
+//@   ensures [greater] (r > 0) == cutLess(that, iface(recv))
+//@   modifies nothing
+//@
+//@ func extractValue(c) (ts, isAbv)
+//@   requires isBelow(c) || isAbove(c)
+//@   ensures ts == tsOf(c) && isAbv == isAbove(c)
+//@   modifies nothing
